@@ -39,6 +39,12 @@ Theorem C07_any_segmentation : forall chunks rest n, no_stall 0 chunks ->
 Proof. exact receive_any_segmentation. Qed.
 Print Assumptions C07_any_segmentation.
 
+(** [no_stall 0 chunks] holds for every list of reads without 101 consecutive empty reads *)
+Theorem C07_no_stall_meaning : forall chunks : list (list Z),
+  (forall pre post, chunks <> pre ++ repeat [] 101 ++ post) -> no_stall 0 chunks.
+Proof. exact no_stall_declarative. Qed.
+Print Assumptions C07_no_stall_meaning.
+
 (** in particular the result does not depend on the segmentation *)
 Theorem C07_segmentation_independent : forall chunks1 chunks2 rest1 rest2 n,
   no_stall 0 chunks1 -> no_stall 0 chunks2 -> concat chunks1 = concat chunks2 ->
